@@ -101,7 +101,11 @@ class Driver:
     def run(self, lines: list[str]) -> list[str]:
         if not lines:
             return []
-        if not self.exe.exists():
+        for _ in range(30):                      # another lake process may be relinking it right now
+            if self.exe.exists():
+                break
+            time.sleep(1)
+        else:
             raise InfraError("driver executable missing (setup_cmd not run?)")
         for ln in lines:
             if "\n" in ln:
